@@ -19,7 +19,8 @@ PREFIX = {"http://www.w3.org/1999/xlink": "xlink", "http://www.w3.org/XML/1998/n
 
 EXTRA_TEXT = ["a<b", "x&y", "&amp;", "1 < 2 > 0", "\"q\"", "'s'", "`", "a=b", "</p>", "</script>", "</title>",
               "<!--", "-->", "--", "->", "--!>", "-", "]]>", "<![CDATA[", "\r", "a\rb", "é", "\U0001F600", "&#38;",
-              "&lt;", "&notit;", "&amp", "&#x3C;", "<", ">", "&", "\x0b", "\xa0", " ", "=", "/", " /", "a b"]
+              "&lt;", "&notit;", "&amp", "&#x3C;", "<", ">", "&", "\x0b", "\xa0", " ", "=", "/", " /", "a b",
+              "<!--<script>", "<!-- <SCRIPT x", "<!--<script></script>-->", "<!-x", "<!"]
 
 
 def rnd_opts(rng):
@@ -251,7 +252,8 @@ class C08(Plugin):
                 "C08-plaintext-element": w("<plaintext>a<b"),
                 "C08-escape-rcdata-option": w("<script>a<b</script>", escape_rcdata=True),
                 "C08-noscript-raw-text": w("<noscript>&lt;b&gt;</noscript>"),
-                "C08-foreign-raw-text-element": w("<svg><style>a&lt;b</style></svg>")}
+                "C08-foreign-raw-text-element": w("<svg><style>a&lt;b</style></svg>"),
+                "C08-script-comment-like-text": w("<script><!--<script>")}
 
     def encode(self, case):
         return [0, enc_opts(case["opts"]), T.enc_tokens([T.from_json(t) for t in self.stream_of(case)])]
@@ -388,6 +390,24 @@ class C08(Plugin):
                     return "foreign-raw-text-element"
                 if st[-1][1] == "noscript":
                     return "noscript-raw-text"
+        # the text of an HTML script element that enters the double-escaped state ("<!--" ... "<script"): the end tag the
+        # serializer writes after it does not end the element
+        st, acc = [], None
+        for t in stream:
+            if t["type"] == "StartTag":
+                st.append((t["namespace"], t["name"]))
+                if st[-1] in ((HTML, "script"), (None, "script")) and len([x for x in st if x[1] == "script"]) == 1:
+                    acc = ""
+            elif t["type"] == "EndTag" and st:
+                if acc is not None and st[-1][1] == "script":
+                    low = acc.lower()
+                    i = low.find("<!--")
+                    if i >= 0 and "<script" in low[i:]:
+                        return "script-comment-like-text"
+                    acc = None
+                st.pop()
+            elif t["type"] in ("Characters", "SpaceCharacters") and acc is not None:
+                acc += t["data"]
         if "plaintext" in names:
             return "plaintext-element"
         if opts.get("escape_rcdata") and any(n in rcdataElements for n in names):
@@ -401,7 +421,8 @@ class C08(Plugin):
                 "plaintext-element": "C08-plaintext-element",
                 "escape-rcdata-option": "C08-escape-rcdata-option",
                 "noscript-raw-text": "C08-noscript-raw-text",
-                "foreign-raw-text-element": "C08-foreign-raw-text-element"}.get(cls)
+                "foreign-raw-text-element": "C08-foreign-raw-text-element",
+                "script-comment-like-text": "C08-script-comment-like-text"}.get(cls)
 
     def nontrivial_key(self, case, out):
         if out and out[0] == 0 and len(out[1]) > 8:
